@@ -444,6 +444,13 @@ def oracle(ctx, kernel, meta):
             continue
         if obs[3] != prev[3]:
             return {"what": f"{k}: identifier/note of the ACL changed from {prev[3]} to {obs[3]}"}
+        # AceGroups (since F10): a group that is still there under the same name is the same object with its note
+        gb = {t[3]: (t[1], t[2]) for t in prev[4] if t and t[0] == "group"}
+        ga = {t[3]: (t[1], t[2]) for t in obs[4] if t and t[0] == "group"}
+        if k not in ("group", "ungroup"):
+            for name, tag in gb.items():
+                if name in ga and ga[name] != tag:
+                    return {"what": f"{k}: the AceGroup {name!r} had (identifier, note) {tag}, now {ga[name]}"}
         before = _leaf_tags(prev)
         after = _leaf_tags(obs)
         lines_b = dict(zip([t[0] for t in _leaf_seq(prev)], prev[1][1:]))
